@@ -188,14 +188,22 @@ def replay(ctx, data):
 
 LEVEL_TEXT = ("Proof (Coq, all theorems closed under the global context) on the identity-labelled tree model (every node carries the "
               "allocation number of its Python object): no object is reachable twice after rendering and after the modelled transforms "
-              "incl. CollectFootnotes' remove+append and ResolveAnchorIds' child move (C03_single_occurrence); sections only under "
-              "document/section and starting with a title (C03_sections_ok); rows match columns under O_table_shape "
-              "(C03_rows_match_cols); transitions: refuted on the faithful model, proved when thematic breaks are top-level "
-              "(C03_transitions_ok_partial); generated ids fresh (C03_ids_unique_partial), refuted for Sphinx' preset math ids. Tie: "
-              "Gen/Render.v + differential correspondence directly after parsing and after the modelled transforms (tree, ids, names, "
-              "refids, backrefs, warnings) on every run; the walker of the search checks every clause on the implementation after "
-              "parsing and after the full docutils / Sphinx pipelines.")
+              "incl. CollectFootnotes' remove+append and ResolveAnchorIds' child move (C03_single_occurrence, dynamic syntax included: "
+              "oracle nodes are renumbered); sections only under document/section and starting with a title (C03_sections_ok); rows match "
+              "columns under O_table_shape (C03_rows_match_cols); transitions: refuted on the faithful model, proved when thematic breaks "
+              "are top-level (C03_transitions_ok_partial); ids GLOBALLY distinct for every forest without a preset-id node, through the "
+              "registry interface Api.api and the invariant IdsProofs.ids_inv (C03_ids_unique; set_id fresh: C03_ids_unique_partial), "
+              "refuted for Sphinx' preset math ids; refid values resolve for the reference kinds the renderer creates - footnote "
+              "references and '#anchor' links - as corollaries of the C11 / C09 models of the two transforms that write refids "
+              "(C03_refids_resolve_footnotes, C03_refids_resolve_anchors, C03_refids_dangle_only_reported). Tie: Gen/Render.v + "
+              "differential correspondence directly after parsing and after the modelled transforms (tree, ids, names, refids, backrefs, "
+              "warnings) on every run; label-first / refids / ids are evaluated (extracted) on every transformed model document; the "
+              "walker of the search checks every clause on the implementation after parsing and after the full docutils / Sphinx "
+              "pipelines.")
 LEVEL_NOTE = ("Trusted: Coq kernel; transcriptions of base.py/sphinx_.py/transforms.py and of docutils' registry + Footnotes transform "
-              "(correspondence-checked); parent pointers and the full transform pipelines are checked on the implementation only. Not "
-              "proved: global uniqueness of ids, refid resolution, footnote-label-first (correspondence + search). Static grammar only "
-              "(directive bodies, eval-rst, roles: search). Open findings: transition:inside-container and 14 others (see known_findings.json).")
+              "(correspondence-checked); the C11 / C09 builders' models Refs/Foot.v, Refs/Anchors.v for the refid corollaries; parent "
+              "pointers and the full transform pipelines are checked on the implementation only. Not proved on the tree model: "
+              "footnote-label-first and refid resolution after the transforms (measured on every transformed model document + search); "
+              "ids after the transforms. Open findings (13): transition:inside-container, ids:duplicate:math-label+math-label, "
+              "ids:duplicate:math-label+other, ids:duplicate:toc-copy, four {eval-rst} signatures, HandleCodeBlocks, "
+              "refid:dangling:node-removed:DocInfo / :Contents, two docinfo-stripped.")
